@@ -154,8 +154,9 @@ pub mod parser {
         ch == '_'
     }
 
+    /// a line ending: `\r\n`, or a single `\n` or `\r`
     pub fn new_line<'a>() -> Parser<'a, char, ()> {
-        one_of("\r\n").discard()
+        tag("\r\n").discard() | one_of("\r\n").discard()
     }
 
     /// any whitespace character
